@@ -1862,6 +1862,8 @@ def r01_s(ctx):
     """no node of a copied-out document points into the caller's input (shared with C16: a dangling pointer is a memory-safety violation)"""
     from . import c16
     ctx.include(c16.r16_6, 'R01.S')
+    from . import c18
+    ctx.include(c18.r18_8, 'R01.S')  # a cached decoding taken back under &mut self leaves the cache empty (no double free in Drop)
 
 
 RULES = [("R01.1", r01_1), ("R01.2", r01_2), ("R01.2b", r01_2b), ("R01.3", r01_3), ("R01.4", r01_4), ("R01.4b", r01_4b), ("R01.5", r01_5), ("R01.6", r01_6), ("R01.7", r01_7), ("R01.8", r01_8), ("R01.9", r01_9), ("R01.10", r01_10), ("R01.11", r01_11), ("R01.12", r01_12), ("R01.13", r01_13), ("R01.13x", r01_13x), ("R01.14", r01_14), ("R01.15", r01_15), ("R01.16", r01_16), ("R01.17", r01_17), ("R01.W", r01_w), ("R01.S", r01_s)]
